@@ -542,6 +542,41 @@ def r03_7(ctx: Ctx):
     ctx.ok(rid, sd.short, 'no recursion among the functions reachable from the solve driver', sd.loc())
 
 
+def r03_8(ctx: Ctx):
+    """The thresholds the stop predicate compares with are the caller's: nothing in the library rewrites
+    SolverParameters.eps / itersLimit (the stop routine reads them through the shared parameters object, so a
+    write anywhere - the Solver constructor included - moves the stopping moment away from the requested one)."""
+    rid = 'R03.8'
+    ctx.rule(rid, 'the thresholds read by the stop predicate (parameters.eps, parameters.itersLimit) are written by '
+                  'nobody but the SolverParameters constructor')
+    roles = C.roles_of(ctx)
+    pc = ctx.ix.cls('SolverParameters')
+    try:
+        sr = roles.stop_routine
+    except RoleMissing as e:
+        ctx.fail(rid, f'role {e.role}', 'iOpt/', str(e), key=f'{rid}::role::{e.role}')
+        return
+    # which parameter fields does the stop routine read?
+    read = set()
+    for nd in ast.walk(sr.node):
+        if isinstance(nd, ast.Attribute) and isinstance(nd.ctx, ast.Load):
+            objs = ctx.pta.expr_pts(sr, nd.value)
+            if any(o.cls is not None and o.cls.is_subclass_of(pc) for o in objs):
+                read.add(nd.attr)
+    ctx.floor(rid, 'parameter fields read by the stop routine', len(read), 2)
+    n = 0
+    for fld in sorted(read):
+        ws = roles.attr_writers(fld, pc)
+        n += 1
+        for m in ws:
+            ctx.fail(rid, m.func.short, m.loc(),
+                     f'{m.text()[:70]} rewrites SolverParameters.{fld}, which the stop predicate reads: the search no '
+                     f'longer stops at the accuracy / budget the caller requested (and the shared parameters object '
+                     f'carries the change to other solvers)', key=f'{rid}::{m.func.short}::writes::{fld}')
+        if not ws:
+            ctx.ok(rid, f'SolverParameters.{fld}', 'written only by the SolverParameters constructor', pc.lookup('__init__').loc())
+
+
 def check(ctx: Ctx):
     if C.want(ctx, 'R-LINK'):
         r_link(ctx)
@@ -555,7 +590,7 @@ def check(ctx: Ctx):
                      f'recorded and not bounded by the budget', key=f'R03.2::{c.short}::evaluator')
         return
     for rid, fn in (('R03.1', r03_1), ('R03.2', r03_2), ('R03.3', r03_3), ('R03.4', r03_4),
-                    ('R03.5', r03_5), ('R03.6', r03_6), ('R03.7', r03_7)):
+                    ('R03.5', r03_5), ('R03.6', r03_6), ('R03.7', r03_7), ('R03.8', r03_8)):
         if C.want(ctx, rid):
             fn(ctx)
     ctx.assume('the user objective, scipy.optimize.minimize and DEPQ operations terminate')
